@@ -134,7 +134,7 @@ def stream_families(families, prop, harness='c02_stream', extra_args=()):
                 d = json.load(open(cf)); d['agg']['cached'] = True
             else:
                 res, fails = run_stream(ENV, ['python3', os.path.join(ROOT, 'gen', 'progenum.py'), fam, tier, '{shard}', '{nshards}'],
-                                        os.path.join(os.path.dirname(work), 'asan', harness), ['--tier', tier, '--sub', fam, '--deadline', '240' if tier == 'quick' else '1200'] + list(extra_args) + (['--texts', 'small'] if fam in ('constraint', 'deep') else ['--texts', 'long'] if (fam in ('twopass', 'manyrules') and tier == 'thorough') else []))
+                                        os.path.join(os.path.dirname(work), 'asan', harness), ['--tier', tier, '--sub', fam, '--deadline', '240' if tier == 'quick' else '1200'] + list(extra_args) + (['--texts', 'small'] if fam in ('constraint', 'deep', 'slotattrs') else ['--texts', 'long'] if (fam in ('twopass', 'manyrules') and tier == 'thorough') else []))
                 d = {'agg': merge_stream_results(fam, res), 'fails': fails}
                 for old in os.listdir(cache):
                     if old.startswith('%s-%s-%s-' % (harness, fam, tier)): os.unlink(os.path.join(cache, old))
